@@ -154,6 +154,37 @@ func (sp *VerifC17SenderPart) StreamingPart(group, topic string) queue.Streaming
 // PartDir is the part's directory on the sending side.
 func (sp *VerifC17SenderPart) PartDir() string { return sp.Dir }
 
+// HandoffStreamingPart parks the part in a real hand-off queue for an offline data node (enqueueForNode, as
+// enqueueForOfflineNodes does when the syncer cannot reach the node) and reads it back the way the replay
+// worker does (readPartFromHandoff): the returned files are what the liaison ships once the node is back.
+func (sp *VerifC17SenderPart) HandoffStreamingPart(handoffRoot, group, topic string) (queue.StreamingPartData, func(), error) {
+	const node = "node1.example.com:17912"
+	hc, err := newHandoffController(fs.NewLocalFileSystem(), handoffRoot, nil, []string{node}, 0, logger.GetLogger("verif-c17-handoff"), nil)
+	if err != nil {
+		return queue.StreamingPartData{}, nil, err
+	}
+	if err = hc.enqueueForNode(node, sp.p.partMetadata.ID, PartTypeCore, sp.Dir, group, 0); err != nil {
+		_ = hc.close()
+		return queue.StreamingPartData{}, nil, err
+	}
+	spd, release, err := hc.readPartFromHandoff(node, sp.p.partMetadata.ID, PartTypeCore)
+	if err != nil {
+		_ = hc.close()
+		return queue.StreamingPartData{}, nil, err
+	}
+	out := *spd
+	if out.Group == "" {
+		out.Group = group
+	}
+	if out.Topic == "" {
+		out.Topic = topic
+	}
+	return out, func() {
+		release()
+		_ = hc.close()
+	}, nil
+}
+
 // TotalCount is the number of rows in the part.
 func (sp *VerifC17SenderPart) TotalCount() uint64 { return sp.p.partMetadata.TotalCount }
 
